@@ -17,6 +17,8 @@ C05-comptensor ComponentTensor constructor and as_tensor(expr, indices).
 C05-listtensor ListTensor constructor on rows generated as every way of slicing / indexing / transposing a
               tensor row by row (the sub-tensor reconstruction shortcuts), nested lists via as_tensor/as_vector/
               as_matrix.
+C05-tensoralgebra Outer / Inner / Dot constructors on operands that both carry free indices of different extents, in
+              either order of index creation, and on zeros with free indices.
 C05-mult      a*b (exproperators._mult): scalar*scalar with repeated indices, scalar*tensor, matrix*vector,
               matrix*matrix; +, -, /, **, unary -, abs through the Expr operators.
 C05-declared  every node built from source declares (ufl_shape, ufl_free_indices, ufl_index_dimensions)
@@ -339,6 +341,21 @@ def run(ctx) -> Report:
         for key in keys_for(t, W, with_slices=True):
             what = f"{describe(t)}[{key_text(key)}]"
             R.check("C05-getitem", wg, what, lambda: H.getitem(t, key if len(key) != 1 else key[0]), lambda: uflsem.t_index(t, key, repeated="sum"))
+    # ---------------------------------------------------------------- tensor algebra constructors
+    # Outer / Inner / Dot on operands that both carry a free index - of different extents, created in either order - and
+    # on zeros with free indices (zero folding keeps shape, indices and extents)
+    p_, q_ = new_index(), new_index()
+    for first, second in ((W.i, W.j), (W.j, W.i)):
+        # `first` belongs to the left operand; in the second round the left operand's index is the younger one
+        left = named(um.m_component_tensor(um.m_indexed(W.B, MI((p_, first))), MI((p_,))), f"B[:,{first}]")
+        right = named(um.m_component_tensor(um.m_indexed(W.A, MI((q_, second))), MI((q_,))), f"A[:,{second}]")
+        zl = named(um.m_zero((2,), (first.id,), (3,)), f"Zero(2)[{first}:3]")
+        zr = named(um.m_zero((2,), (second.id,), (2,)), f"Zero(2)[{second}:2]")
+        for cname in ("Outer", "Inner", "Dot"):
+            wt = R.where(cname)
+            for a, b in ((left, right), (right, left), (zl, right), (left, zr), (zl, zr), (W.u, right), (left, W.v)):
+                what = f"{cname}({describe(a)}, {describe(b)})"
+                R.check("C05-tensoralgebra", wt, what, lambda: H.construct(cname, (a, b)), lambda: ref[cname](a, b))
     # ---------------------------------------------------------------- IndexSum
     ws = R.where("IndexSum")
     i, j = W.i, W.j
